@@ -13,6 +13,17 @@ CONN_NOTE = (NOTE_COMMON + " Connection model: packets are seen through a view (
              "state digest, events and return values on every sampled history (C05's projection); each property compares its own projection.")
 
 CHECKS = {
+ "C15": dict(
+  text="Coq theorems, Closed under the global context, for EVERY state and API call of the connection model and every history: replaying "
+       "the timer reset/cancel requests of the returned events over the connection's timer flags (after clearing the flag of an expired timer) "
+       "yields exactly the flags afterwards and never meets a cancel for an unarmed timer; after notify_closed and after a DISCONNECT is "
+       "requested for sending no timer is armed; the PINGREQ interval is chosen by priority (override, Server Keep Alive, CONNECT keep-alive; "
+       "0 disables); a server's receive timeout is 1.5 x the keep-alive of the CONNECT just received and the timer is never armed for 0. "
+       "The remaining functional clauses (re-arm after EVERY send while connected, expiry effects) are checked by the monitor on the "
+       "implementation's traces and by the correspondence, not yet as theorems.",
+  ref="DESIGN.md §3 C15",
+  note=CONN_NOTE + " The observer of the monitor is built only from events and reported expiries; the flag comparison uses the hook.",
+  technique="Coq all-states proof that timer events track the flags (compositional over core.rs functions) + observer monitor + differential correspondence"),
  "C17": dict(
   text="Coq theorems, Closed under the global context, for EVERY state of the connection model: a frame of a kind the MQTT rule table never lets "
        "the peer of this role send yields exactly one error event and leaves the state unchanged; a CONNECT or CONNACK frame on an established "
